@@ -138,6 +138,10 @@ func matchChunk(chunk, s string) (rest string, ok bool) {
 func (p Pattern) MarshalJSON() ([]byte, error) {
 	var buf bytes.Buffer
 	buf.WriteRune('[')
+	if len(p.comps) == 0 {
+		// the empty pattern (`like ""`): UnmarshalJSON requires at least one component
+		buf.WriteString(`{"Literal":""}`)
+	}
 	for i, comp := range p.comps {
 		if comp.Wildcard {
 			buf.WriteString(`"Wildcard"`)
